@@ -669,6 +669,16 @@ static char *read_file(char *path) {
     fwrite(buf2, 1, n, out);
   }
 
+  // A read error (e.g. the path names a directory) is not an empty file.
+  if (ferror(fp)) {
+    int err = errno;
+    if (fp != stdin)
+      fclose(fp);
+    fclose(out);
+    errno = err;
+    return NULL;
+  }
+
   if (fp != stdin)
     fclose(fp);
 
